@@ -141,6 +141,10 @@ class OperationGroup(ContextMixin, ContentMixin):
 
         if counter is not None:
             self.context.set_counter(counter - 1)  # which is supposedly the current state (head)
+        else:
+            # always start from the counter on the node: a previous fill of this group (e.g. to inspect
+            # fees before sending) must not shift the counters of this one
+            self.context.counter = None
 
         if gas_limit is None:
             hard_gas_limit_per_content = int(constants['hard_gas_limit_per_operation']) // len(self.contents)
